@@ -893,4 +893,33 @@ theorem answerStart_query (name : List (List Nat)) (rtype : Nat) (hwf : NameWF n
   rw [hlen]
 
 
+/-- a browse response: one PTR record `service type → instance` -/
+def browseRecord (stype inst : List (List Nat)) (ttl : Nat) : RecSpec :=
+  { owner := stype, rtype := RT_PTR, cls := CLASS_IN, ttl := ttl, rdata := encName inst, inner := inst }
+
+/-- **browse response (PTR only)**: without an SRV record the instance name is the PTR target; no port, no
+address, no TXT pair (`parse_into_answer`'s fallback branch) -/
+theorem parse_browse_response (stype inst : List (List Nat)) (ttl : Nat) (scope : Option Nat)
+    (h1 : NameWF stype) (h2 : NameWF inst) (h3 : ttl < 4294967296) :
+    parseIntoAnswer (responseBytes [browseRecord stype inst ttl]) scope =
+      .ok (some { inst := flatName inst, port := none, addrs := [], txt := [], scope := scope.getD 0 }) := by
+  have hwf : ∀ r ∈ [browseRecord stype inst ttl], r.WF := by
+    intro r hr
+    simp only [List.mem_singleton] at hr; subst hr
+    exact ⟨h1, by simp [browseRecord, RT_PTR], by simp [browseRecord, CLASS_IN], h3, by have := h2.2; simp only [browseRecord]; omega⟩
+  obtain ⟨h12, hqr, _⟩ := response_hdr [browseRecord stype inst ttl] (by simp)
+  obtain ⟨hall, hloc⟩ := allRecords_response [browseRecord stype inst ttl] hwf (by simp)
+  revert hall hloc h12 hqr
+  generalize responseBytes [browseRecord stype inst ttl] = d
+  intro h12 hqr hall hloc
+  obtain ⟨hat, _⟩ := hloc.head (Nat.le_refl _)
+  have hs := toSrv_other hat (show (browseRecord stype inst ttl).rtype ≠ RT_SRV by simp [browseRecord, RT_PTR, RT_SRV])
+  have hp := toPtr_at hat inst rfl rfl h2
+  unfold parseIntoAnswer
+  rw [if_neg (by omega), hqr]
+  simp only [Bool.not_true, Bool.false_eq_true, if_false, hall, bind, Except.bind, parsedAll, pass1, pass1Step, hs, hp, okSome]
+  simp [findTxt, RecSpec.parsed, browseRecord, RT_PTR, RT_TXT, txtPairs, txtAll, txtNext, addrsAll, addrsNext, bind, Except.bind,
+    pure, Except.pure]
+
+
 end Codec.Mdns
